@@ -419,6 +419,58 @@ fn oracle_fresh_walk(ctx: &mut Ctx, case: &Case, nodes: &[Node], k: usize, t0: f
     }
 }
 
+/// Second, shape-agnostic reading of the same clauses: walk the serialized simulation and take EVERY
+/// object that has a `history` with an `i` column, wherever it sits — a component the typed dump above
+/// does not know about (a new nested object) is still compared with all the others.
+fn collect_generic(j: &Value, path: &str, out: &mut Vec<(String, Vec<u64>, Option<Value>, Option<u64>)>) {
+    match j {
+        Value::Object(m) => {
+            if let Some(Value::Object(h)) = m.get("history") {
+                if let Some(Value::Array(col)) = h.get("i") {
+                    let col: Vec<u64> = col.iter().filter_map(|x| x.as_u64()).collect();
+                    let iv = m.get("save_interval").cloned();
+                    let si = m.get("state").and_then(|s| s.get("i")).and_then(|x| x.as_u64());
+                    out.push((path.to_string(), col, iv, si));
+                }
+            }
+            for (k, v) in m {
+                if k == "history" || k == "path_tpc" || k == "train_res" || k == "power_trace" || k == "speed_trace" || k == "braking_points" { continue; }
+                collect_generic(v, &format!("{}.{}", path, k), out);
+            }
+        }
+        Value::Array(a) => {
+            for (k, v) in a.iter().enumerate() { collect_generic(v, &format!("{}[{}]", path, k), out); }
+        }
+        _ => {}
+    }
+}
+
+fn oracle_generic(ctx: &mut Ctx, case: &Case, typed: &[Node]) {
+    let j = match &case.sim {
+        Sim::Loco(s) => serde_json::to_value(&s.loco_unit).map(|v| json!({"loco_unit": v})),
+        Sim::Consist(s) => serde_json::to_value(&s.loco_con).map(|v| json!({"loco_con": v})),
+        Sim::SetSpeed(s) => serde_json::to_value(s),
+        Sim::SpeedLimit(s) => serde_json::to_value(&**s),
+    }.unwrap();
+    let mut g = Vec::new();
+    collect_generic(&j, "", &mut g);
+    let mut o = Orc { ctx };
+    let n_typed = typed.iter().filter(|n| n.hist_i.is_some()).count();
+    o.req("every_history_bearing_object_is_known", g.len() == n_typed, case, || format!("the serialized object has {} objects with a history, the typed walk knows {}: {:?}", g.len(), n_typed, g.iter().map(|x| x.0.clone()).collect::<Vec<_>>()));
+    if let Some(first) = g.first() {
+        o.req("generic_history_rows_same_step", g.iter().all(|x| x.1 == first.1), case, || {
+            let bad = g.iter().find(|x| x.1 != first.1).unwrap();
+            format!("serialized histories differ: {} has {} rows, {} has {} rows", first.0, first.1.len(), bad.0, bad.1.len())
+        });
+        o.req("generic_interval_reaches_every_object", g.iter().all(|x| x.2 == first.2), case, || {
+            let bad = g.iter().find(|x| x.2 != first.2).unwrap();
+            format!("serialized save_interval differs: {} has {:?}, {} has {:?}", first.0, first.2, bad.0, bad.2)
+        });
+        let sis: Vec<u64> = g.iter().filter_map(|x| x.3).collect();
+        o.req("generic_counters_equal", sis.windows(2).all(|w| w[0] == w[1]), case, || format!("serialized state.i values differ: {:?}", sis));
+    }
+}
+
 // ------------------------------------------------------------------ scripts
 
 fn emit(ctx: &mut Ctx, case: &Case, nodes: &[Node]) {
@@ -485,6 +537,7 @@ fn case_fresh_walk(ctx: &mut Ctx, r: &mut Rng, kind: &'static str, vs: Vec<&'sta
     let n1 = case.sim.dump();
     emit(ctx, &case, &n1);
     oracle_alignment(ctx, &case, &n1);
+    oracle_generic(ctx, &case, &n1);
     oracle_fresh_walk(ctx, &case, &n1, k, t0);
     ctx.count(&format!("hist.fresh.{}.{}", kind, if failed { "err" } else { "ok" }));
     ctx.count(&format!("hist.fresh.interval.{}", match iv0 { None => "none".to_string(), Some(1) => "1".into(), Some(n) if n <= 7 => n.to_string(), _ => "big".into() }));
@@ -587,6 +640,8 @@ fn case_script(ctx: &mut Ctx, r: &mut Rng, kind: &'static str, vs: Vec<&'static 
     for (hi, li) in case.sim.hybrid_counters() {
         ctx.count(if hi == li { "hist.hybrid_private_counter.equal" } else { "hist.hybrid_private_counter.differs" });
     }
+    let nf = case.sim.dump();
+    oracle_generic(ctx, &case, &nf);
     ctx.count(&format!("hist.script.{}", kind));
     ctx.sample("hist_script", case.replay());
 }
